@@ -13,7 +13,9 @@
 //! with `default-features = false` (needed by the C08 transcript driver).
 
 pub mod bytes;
+pub mod elfnames;
 pub mod encode;
+pub mod realistic;
 pub mod panics;
 pub mod exercise_hdr;
 pub mod exercise_mbi;
